@@ -21,7 +21,7 @@ def run(seed):
     own=seed.split('-')[0]
     order=[own]+[p for p in props if p!=own]
     for p in order:
-        o=subprocess.run([f'{V}/bin/vcheck','-prop',p,'-tier','quick','-repo',wt,'-verif',vd],capture_output=True,text=True)
+        o=subprocess.run([os.environ.get('VCHECK_BIN',f'{V}/bin/vcheck'),'-prop',p,'-tier','quick','-repo',wt,'-verif',vd],capture_output=True,text=True)
         lines=[l.strip() for l in o.stdout.splitlines() if l.strip().startswith(('violation:','undecided:'))]
         res[p]={'rc':o.returncode,'first':(lines[0][:300] if lines else '')}
     subprocess.run(['git','-C','/repo','worktree','remove','--force',wt],capture_output=True)
